@@ -84,8 +84,8 @@ macro_rules! reg_bm_dec {
 }
 #[macro_export]
 macro_rules! reg_stream {
-    ($v:ident, $kind:expr, $fam:literal, $corefam:literal, $core:ty, $cname:expr) => {{
-        $crate::impl_stream!($core);
+    ($v:ident, $kind:expr, $fam:literal, $corefam:literal, $core:ty, $alias:ty, $tag:ty, $cname:expr) => {{
+        $crate::impl_stream!($core, $alias, $tag);
         $v.push(Box::new(StF::<$core>(
             $kind,
             format!("{}<{}>", $fam, $cname),
@@ -106,28 +106,45 @@ macro_rules! reg_cts {
     }};
 }
 
+/// One CTR flavour. `alias`: the byte-level cipher is named through the crate's public alias
+/// (`ctr::Ctr64BE<C>`); `noalias`: through `StreamCipherCoreWrapper<CtrCore<C, F>>`. Aliases are
+/// used only for block sizes that are multiples of 16 bytes, where every flavour is a valid
+/// instantiation, so that the harness still builds if an alias is pointed at another flavour.
+#[macro_export]
+macro_rules! reg_ctr_one {
+    ($v:ident, $c:ty, $cname:expr, $fl:ident, $w:literal, $be:literal, $fam:literal, $corefam:literal, alias) => {
+        $crate::reg_stream!($v, $crate::obj::StreamKind::Ctr($w, $be), $fam, $corefam,
+            $crate::deps::ctr::CtrCore<$c, $crate::deps::ctr::flavors::$fl>, $crate::deps::ctr::$fl<$c>, TagCtr<$w, $be>, $cname);
+    };
+    ($v:ident, $c:ty, $cname:expr, $fl:ident, $w:literal, $be:literal, $fam:literal, $corefam:literal, noalias) => {
+        $crate::reg_stream!($v, $crate::obj::StreamKind::Ctr($w, $be), $fam, $corefam,
+            $crate::deps::ctr::CtrCore<$c, $crate::deps::ctr::flavors::$fl>,
+            $crate::deps::cipher::StreamCipherCoreWrapper<$crate::deps::ctr::CtrCore<$c, $crate::deps::ctr::flavors::$fl>>, TagCtr<$w, $be>, $cname);
+    };
+}
 #[macro_export]
 macro_rules! reg_ctr_flavors {
     ($v:ident, $c:ty, $cname:expr, none) => {};
     ($v:ident, $c:ty, $cname:expr, c32) => {
-        $crate::reg_stream!($v, $crate::obj::StreamKind::Ctr(32, true), "ctr::Ctr32BE", "CtrCore32BE",
-            $crate::deps::ctr::CtrCore<$c, $crate::deps::ctr::flavors::Ctr32BE>, $cname);
-        $crate::reg_stream!($v, $crate::obj::StreamKind::Ctr(32, false), "ctr::Ctr32LE", "CtrCore32LE",
-            $crate::deps::ctr::CtrCore<$c, $crate::deps::ctr::flavors::Ctr32LE>, $cname);
+        $crate::reg_ctr_flavors!(@l32 $v, $c, $cname, noalias);
     };
     ($v:ident, $c:ty, $cname:expr, c64) => {
-        $crate::reg_ctr_flavors!($v, $c, $cname, c32);
-        $crate::reg_stream!($v, $crate::obj::StreamKind::Ctr(64, true), "ctr::Ctr64BE", "CtrCore64BE",
-            $crate::deps::ctr::CtrCore<$c, $crate::deps::ctr::flavors::Ctr64BE>, $cname);
-        $crate::reg_stream!($v, $crate::obj::StreamKind::Ctr(64, false), "ctr::Ctr64LE", "CtrCore64LE",
-            $crate::deps::ctr::CtrCore<$c, $crate::deps::ctr::flavors::Ctr64LE>, $cname);
+        $crate::reg_ctr_flavors!(@l32 $v, $c, $cname, noalias);
+        $crate::reg_ctr_flavors!(@l64 $v, $c, $cname, noalias);
     };
     ($v:ident, $c:ty, $cname:expr, c128) => {
-        $crate::reg_ctr_flavors!($v, $c, $cname, c64);
-        $crate::reg_stream!($v, $crate::obj::StreamKind::Ctr(128, true), "ctr::Ctr128BE", "CtrCore128BE",
-            $crate::deps::ctr::CtrCore<$c, $crate::deps::ctr::flavors::Ctr128BE>, $cname);
-        $crate::reg_stream!($v, $crate::obj::StreamKind::Ctr(128, false), "ctr::Ctr128LE", "CtrCore128LE",
-            $crate::deps::ctr::CtrCore<$c, $crate::deps::ctr::flavors::Ctr128LE>, $cname);
+        $crate::reg_ctr_flavors!(@l32 $v, $c, $cname, alias);
+        $crate::reg_ctr_flavors!(@l64 $v, $c, $cname, alias);
+        $crate::reg_ctr_one!($v, $c, $cname, Ctr128BE, 128, true, "ctr::Ctr128BE", "CtrCore128BE", alias);
+        $crate::reg_ctr_one!($v, $c, $cname, Ctr128LE, 128, false, "ctr::Ctr128LE", "CtrCore128LE", alias);
+    };
+    (@l32 $v:ident, $c:ty, $cname:expr, $al:ident) => {
+        $crate::reg_ctr_one!($v, $c, $cname, Ctr32BE, 32, true, "ctr::Ctr32BE", "CtrCore32BE", $al);
+        $crate::reg_ctr_one!($v, $c, $cname, Ctr32LE, 32, false, "ctr::Ctr32LE", "CtrCore32LE", $al);
+    };
+    (@l64 $v:ident, $c:ty, $cname:expr, $al:ident) => {
+        $crate::reg_ctr_one!($v, $c, $cname, Ctr64BE, 64, true, "ctr::Ctr64BE", "CtrCore64BE", $al);
+        $crate::reg_ctr_one!($v, $c, $cname, Ctr64LE, 64, false, "ctr::Ctr64LE", "CtrCore64LE", $al);
     };
 }
 #[macro_export]
@@ -135,7 +152,7 @@ macro_rules! reg_belt_flavor {
     ($v:ident, $c:ty, $cname:expr, nobelt) => {};
     ($v:ident, $c:ty, $cname:expr, belt) => {
         $crate::reg_stream!($v, $crate::obj::StreamKind::Belt, "belt_ctr::BeltCtr", "belt_ctr::BeltCtrCore",
-            $crate::deps::belt_ctr::BeltCtrCore<$c>, $cname);
+            $crate::deps::belt_ctr::BeltCtrCore<$c>, $crate::deps::belt_ctr::BeltCtr<$c>, TagBelt, $cname);
     };
 }
 
@@ -163,7 +180,7 @@ macro_rules! reg_enc_side {
                 core::marker::PhantomData,
             )) as Box<dyn $crate::obj::BufCfbFactory>);
         }
-        $crate::reg_stream!($st, $crate::obj::StreamKind::Ofb, "ofb::Ofb", "ofb::OfbCore", $crate::deps::ofb::OfbCore<$c>, $cname);
+        $crate::reg_stream!($st, $crate::obj::StreamKind::Ofb, "ofb::Ofb", "ofb::OfbCore", $crate::deps::ofb::OfbCore<$c>, $crate::deps::ofb::Ofb<$c>, TagOfb, $cname);
         $crate::reg_ctr_flavors!($st, $c, $cname, $ctr);
         $crate::reg_belt_flavor!($st, $c, $cname, $belt);
     };
